@@ -877,7 +877,7 @@ checkpoint_event(const struct ev_s *e)
 		const char *name;
 		int err;
 		int shortw;
-	} faults[] = {{"EIO", EIO, 0}, {"ENOSPC", ENOSPC, 0}, {"EMFILE", EMFILE, 0}, {"short-write", 0, 1}};
+	} faults[] = {{"EIO", EIO, 0}, {"ENOSPC", ENOSPC, 0}, {"EMFILE", EMFILE, 0}, {"short-write", 0, 1}, {"EINTR", EINTR, 0}};
 	for (long k = 0; k < nsteps; k++) {
 		for (size_t f = 0; f < sizeof(faults) / sizeof(*faults); f++) {
 			vd_beat();
@@ -1458,7 +1458,7 @@ many_faults(void)
 	long nsteps;
 	pid_t c;
 	int st;
-	static const struct { const char *name; int err; int shortw; } faults[] = {{"EIO", EIO, 0}, {"ENOSPC", ENOSPC, 0}, {"EMFILE", EMFILE, 0}, {"short-write", 0, 1}};
+	static const struct { const char *name; int err; int shortw; } faults[] = {{"EIO", EIO, 0}, {"ENOSPC", ENOSPC, 0}, {"EMFILE", EMFILE, 0}, {"short-write", 0, 1}, {"EINTR", EINTR, 0}};
 
 	snprintf(hist, sizeof(hist), "users 2000..2002 add one task each, CHKPT, then 18 requests (6 more tasks per user, interleaved), CHKPT with one failing spool call");
 	vd_desc("%s", hist);
